@@ -534,7 +534,11 @@ func c16Check(c c16Case, s *c16State, res *c16Result, par bool) {
 	}
 	for id, o := range added {
 		if _, ok := where[id]; !ok && o.ret != 0 {
-			failf("task %d (ev %d, Add returned at %v) was never executed, not even %d idle intervals after the final Wait%s", id, o.ev, o.tret, c16IdleRounds, c16History(s))
+			grace := fmt.Sprintf("%d idle intervals", c16IdleRounds)
+			if par {
+				grace = c16ParLimit.String() + " of real time"
+			}
+			failf("task %d (ev %d, Add returned at %v) was never executed, not even %s after the final Wait%s", id, o.ev, o.tret, grace, c16History(s))
 		}
 	}
 	if res.fail != "" {
@@ -881,6 +885,29 @@ func c16InterpPar(t *testing.T, c c16Case) (v kit.Verdict) {
 			c16ParDirty = true
 			res.fail = fmt.Sprintf("leak: 10 s (real time, interval %v) after the final Wait %d goroutines are alive, %d before the case:\n%s",
 				c.interval(), runtime.NumGoroutine(), c16BaseGoroutines, buf)
+		}
+	}
+	// the history must be complete before it is judged: a batch that was still in the
+	// hand-over when the final Wait returned (open finding) is executed a little later
+	for deadline := time.Now().Add(c16ParLimit); res.fail == "" && time.Now().Before(deadline); time.Sleep(200 * time.Microsecond) {
+		s.mu.Lock()
+		fin := map[int]bool{}
+		for _, b := range s.batches {
+			if b.end != 0 {
+				for _, id := range b.ids {
+					fin[id] = true
+				}
+			}
+		}
+		missing := false
+		for _, o := range s.ops {
+			if o.kind == "add" && o.ret != 0 && !fin[o.ev] {
+				missing = true
+			}
+		}
+		s.mu.Unlock()
+		if !missing {
+			break
 		}
 	}
 	s.mu.Lock()
